@@ -35,6 +35,9 @@ THEOREMS = [
     # cross-cutting round: lengths/angles in the code's own terms, clean-up of the setter inside normalize
     'C05.lengths_angles_of_gram', 'C05.normalize_lengths_angles', 'C05.zeroSmall_flipC', 'C05.hist_normalize_full',
     'C05.boxSet_scale_spec', 'C05.hist_boxSet_scale',
+    # round 4: normalize refuses no non-singular cell (angle check of set_abc in the model), pbc edited in place
+    'C05.angleGuard_of_det_ne_zero', 'C05.normalize_never_refuses', 'C05.angleGuard_refuses_parallel',
+    'C05.hist_wrap_pbc_edited',
 ]
 PARTIAL = {
     'input_left_as_it_was': 'a heap fact (aliasing/mutation), true by construction of the functional model and '
@@ -185,6 +188,22 @@ def _kappa2(Vf):
     return float(max(sum(abs(x) for x in r) for r in Vf) * max(sum(abs(x) for x in r) for r in Vi))
 
 
+def _kabc(Vf):
+    """condition of the rebuild from a, b, c and the lattice angles (set_abc): ly^2 = b^2 - xy^2 and lz^2 = c^2 - xz^2 -
+    yz^2 are differences whose relative rounding error is u b^2/ly^2 resp. u c^2/lz^2 (ly = |a x b|/|a| is the height of b
+    over a, lz = |det|/|a x b| the height of c over the a-b plane).  Unlike kappa it does not depend on the orientation
+    of the cell: a LAMMPS-normal cell with a lattice angle a fraction of a degree from 0 / 180 has kappa of order 1."""
+    a, b, c = Vf
+    cx = [a[1] * b[2] - a[2] * b[1], a[2] * b[0] - a[0] * b[2], a[0] * b[1] - a[1] * b[0]]
+    n2 = sum(x * x for x in cx)
+    d = _det(Vf)
+    if n2 == 0 or d == 0:
+        return float('inf')
+    ly2 = n2 / sum(x * x for x in a)
+    lz2 = d * d / n2
+    return math.sqrt(max(float(sum(x * x for x in b) / ly2), float(sum(x * x for x in c) / lz2), 1.0))
+
+
 CLEAN = 1e-9 * (1 + 1e-6)      # the "zero out near zero terms" threshold of the Box.vects setter (relative to max|vects|)
 
 
@@ -284,6 +303,9 @@ def _pbc_arg(pbc, form):
     raise cm.InfraError('unknown pbc form ' + str(form))
 
 
+_HANDED_PBC = {}      # id(system) -> the bool ndarray last handed to System(pbc=...) / system.pbc = ... (the caller's array)
+
+
 def _build(case):
     import numpy as np
     import atomman as am
@@ -299,8 +321,12 @@ def _build(case):
         box = am.Box(avect=tuple(V[0]), bvect=list(V[1]), cvect=V[2], origin=tuple(o))
     else:
         box = am.Box(vects=V, origin=o)
-    return am.System(atoms=atoms, box=box, pbc=_pbc_arg(case['pbc'], case.get('pbcform')), symbols=('Al', None, 'Cu'),
-                     masses=(26.98, None, 63.5))
+    pbc = _pbc_arg(case['pbc'], case.get('pbcform'))
+    system = am.System(atoms=atoms, box=box, pbc=pbc, symbols=('Al', None, 'Cu'), masses=(26.98, None, 63.5))
+    if len(_HANDED_PBC) > 64:
+        _HANDED_PBC.clear()
+    _HANDED_PBC[id(system)] = pbc if isinstance(pbc, np.ndarray) and pbc.dtype == bool else None
+    return system
 
 
 def _raw_vects(box):
@@ -387,6 +413,7 @@ def _grid_case(rng, pbc, n=None):
     n = n or rng.randint(1, 8)
     Vf, of = _fm(V), _fv(o)
     pos = []
+    layer = (rng.randint(0, 2), None) if n > 1 and rng.random() < 0.1 else None      # single layer: min == max
     for _ in range(n):
         s = []
         for _k in range(3):
@@ -399,6 +426,10 @@ def _grid_case(rng, pbc, n=None):
                 s.append(F(rng.randint(1, 7), 8))                          # inside
             else:
                 s.append(rng.choice([-1, 1]) * F(2 ** rng.randint(3, 10)) + F(rng.randint(0, 8), 8))  # far out
+        if layer is not None:
+            if layer[1] is None:
+                layer = (layer[0], s[layer[0]])
+            s[layer[0]] = layer[1]
         p = [a + b for a, b in zip(_vm(s, Vf), of)]
         pf = [float(x) for x in p]
         assert all(F(a) == b for a, b in zip(pf, p))
@@ -416,10 +447,56 @@ def _rotation(rng):
                      [2 * (x * z - y * w), 2 * (y * z + x * w), 1 - 2 * (x * x + y * y)]])
 
 
+def _axis_rotation(rng, angle, axis=None):
+    """rotation by `angle` about a random axis (or about coordinate axis `axis`)."""
+    import numpy as np
+    if axis is None:
+        u = np.array([rng.gauss(0, 1) for _ in range(3)])
+        u /= np.linalg.norm(u)
+    else:
+        u = np.eye(3)[axis]
+    Kx = np.array([[0, -u[2], u[1]], [u[2], 0, -u[0]], [-u[1], u[0], 0]])
+    return np.eye(3) + math.sin(angle) * Kx + (1 - math.cos(angle)) * (Kx @ Kx)
+
+
+EXTREME_DEV = (0.004, 2.0)      # degrees off 0 / 180: from below the 1e-8 absolute to above the 1e-4 relative cosine band
+
+
+def _extreme_cell(rng, which=None, near180=None):
+    """a valid, non-singular cell ONE of whose lattice angles (alpha, beta or gamma, each in turn) is a fraction of a
+    degree away from 0 or from 180 degrees (log-uniform 0.004 .. 2 degrees: cosines 2e-9 .. 6e-4 from +-1); the two
+    other angles are whatever makes the triple realisable.  Any orientation, either handedness."""
+    import numpy as np
+    which = rng.randint(0, 2) if which is None else which
+    near180 = (rng.random() < 0.5) if near180 is None else near180
+    dev = math.exp(rng.uniform(math.log(EXTREME_DEV[0]), math.log(EXTREME_DEV[1])))
+    t = math.radians(180.0 - dev if near180 else dev)
+    lu, lv, lw = (math.exp(rng.uniform(0.0, 2.5)) for _ in range(3))
+    u = np.array([lu, 0.0, 0.0])
+    v = lv * np.array([math.cos(t), math.sin(t), 0.0])
+    ph, ps = math.radians(rng.uniform(15, 75)), rng.uniform(0, 2 * math.pi)
+    w = lw * np.array([math.sin(ph) * math.cos(ps), math.sin(ph) * math.sin(ps), math.cos(ph)])
+    V = np.array({2: [u, v, w], 1: [u, w, v], 0: [w, u, v]}[which])       # gamma: (a,b)  beta: (a,c)  alpha: (b,c)
+    r = rng.random()
+    if r < 0.6:
+        V = V @ _rotation(rng).T
+    elif r < 0.7:
+        V = V @ np.diag(rng.choice([[-1.0, -1.0, 1.0], [-1.0, 1.0, -1.0], [1.0, -1.0, -1.0]]))
+    r = rng.random()
+    if r < 0.2:
+        V[rng.randint(0, 2)] *= -1            # (reverses two of the angles: near 0 <-> near 180)
+    elif r < 0.3:
+        V = -V
+    return V
+
+
 def _float_cell(rng):
     """triclinic cell from a,b,c and a realisable angle triple; rotated / left-handed / strongly tilted."""
     import numpy as np
-    kind = rng.choice(['normal', 'rotated', 'rotated', 'left', 'left', 'tilted', 'tilted-left', 'ortho'])
+    kind = rng.choice(['normal', 'rotated', 'rotated', 'left', 'left', 'tilted', 'tilted-left', 'ortho', 'halfturn',
+                       'extreme'])
+    if kind == 'extreme':
+        return _extreme_cell(rng), kind
     while True:
         a, b, c = (math.exp(rng.uniform(0.0, 2.5)) for _ in range(3))
         if kind == 'ortho':
@@ -439,9 +516,16 @@ def _float_cell(rng):
     if kind.startswith('tilted'):
         V[1] += rng.choice([-2, -1, 1, 2]) * V[0]
         V[2] += rng.choice([-2, -1, 1, 2]) * V[0] + rng.choice([-1, 0, 1]) * V[1]
-    if kind != 'normal' and kind != 'ortho':
+    if kind == 'halfturn':
+        # the a vector along -x: half turns about an axis (exact sign changes), or a turn a hair short of 180 degrees
+        t = rng.random()
+        if t < 0.5:
+            V = V @ np.diag(rng.choice([[-1.0, -1.0, 1.0], [-1.0, 1.0, -1.0], [1.0, -1.0, -1.0]]))
+        else:
+            V = V @ _axis_rotation(rng, math.pi - rng.choice([0.0, 1e-12, 1e-9, 1e-6, 1e-3]), None if t < 0.8 else 2).T
+    elif kind != 'normal' and kind != 'ortho':
         V = V @ _rotation(rng).T
-    if kind in ('left', 'tilted-left'):
+    if kind in ('left', 'tilted-left') or (kind == 'halfturn' and rng.random() < 0.3):
         w = rng.randint(0, 2)
         if w == 0:
             V[rng.randint(0, 2)] *= -1
@@ -453,9 +537,9 @@ def _float_cell(rng):
     return V, kind
 
 
-def _float_case(rng, pbc, n=None, far=True, faces=True):
+def _float_case(rng, pbc, n=None, far=True, faces=True, cell=None):
     import numpy as np
-    V, kind = _float_cell(rng)
+    V, kind = _float_cell(rng) if cell is None else cell
     o = np.zeros(3) if rng.random() < 0.25 else np.array([rng.uniform(-10, 10) for _ in range(3)])
     n = n or rng.randint(1, 10)
     S = []
@@ -480,6 +564,11 @@ def _float_case(rng, pbc, n=None, far=True, faces=True):
             else:
                 s.append(rng.uniform(-1, 2))
         S.append(s)
+    if n > 1 and rng.random() < 0.08:
+        # a single layer: every atom has the same coordinate along one direction (min == max of that direction)
+        k = rng.randint(0, 2)
+        for s in S:
+            s[k] = S[0][k]
     pos = np.array(S) @ V + o
     return _canon_case({'vects': V.tolist(), 'origin': o.tolist(), 'pbc': list(pbc), 'pos': pos.tolist(),
                         'regime': 'float', 'kind': kind})
@@ -617,11 +706,11 @@ def _nontrivial(case, spos):
     return any(not (0 <= x < 1) for s in spos for x in s) or case.get('kind') not in (None, 'normal', 'ortho')
 
 
-def _compare_positions(case, key, ctx, impl_pos, model_pos, spos, exempt, latt, grid):
+def _compare_positions(case, key, ctx, impl_pos, model_pos, spos, exempt, latt, grid, tolf=TOL):
     """atoms with an exempt axis may differ by one lattice vector along that axis; others must agree."""
     nV = _normV(case['vects'])
     for i, (ip, mp) in enumerate(zip(impl_pos, model_pos)):
-        tol = TOL * (1 + max(abs(float(x)) for x in spos[i])) * nV + TOL * max(abs(x) for x in case['origin'])
+        tol = tolf * (1 + max(abs(float(x)) for x in spos[i])) * nV + TOL * max(abs(x) for x in case['origin'])
         if not exempt[i]:
             ok = all(F(float(a)) == b for a, b in zip(ip, mp)) if grid else \
                 all(abs(float(a) - float(b)) <= tol for a, b in zip(ip, mp))
@@ -630,6 +719,12 @@ def _compare_positions(case, key, ctx, impl_pos, model_pos, spos, exempt, latt, 
             c = _vm(d, latt)            # difference in units of the (new) cell vectors
             ok = all((abs(float(c[k] - _nearint(c[k]))) <= 1e-6 and abs(_nearint(c[k])) <= (1 if k in exempt[i] else 0))
                      for k in range(3))
+            if not ok and tolf > TOL:
+                # ill-conditioned cell (derived bound above 1e-9): whole cell vectors along the exempt axes, and what is
+                # left within the same Cartesian bound as for the other atoms
+                sh = [(_nearint(c[k]) if k in exempt[i] else 0) for k in range(3)]
+                rest = [x - y for x, y in zip(d, _vm([F(t) for t in sh], _fm(case['vects'])))]
+                ok = all(abs(t) <= 1 for t in sh) and all(abs(float(x)) <= tol for x in rest)
         if not ok:
             ctx.disagree(key + ':positions', f'{key}: atom {i} at {list(map(float, ip))}, model {list(map(float, mp))}',
                          {'op': key, 'case': case, 'atom': i})
@@ -774,8 +869,11 @@ def _corr_norm(ctx, cases):
         # within the bound of an integer is exempt on periodic axes; a partially periodic system whose
         # outermost atom is within the bound of a face has an undecided padding
         exempt, box_exempt = [], False
+        # 1e-9, or the derived bound where that is larger (cells with a lattice angle a fraction of a degree from 0 / 180)
+        kn = max(_kappa(_fm(case['vects'])), _kabc(_fm(case['vects'])))
+        tolf = max(TOL, CN * U * kn * kn)
         for s in spos:
-            ex = {k for k in range(3) if pbc[k] and abs(float(s[k] - _nearint(s[k]))) <= TOL * (1 + abs(float(s[k])))}
+            ex = {k for k in range(3) if pbc[k] and abs(float(s[k] - _nearint(s[k]))) <= tolf * (1 + abs(float(s[k])))}
             exempt.append(ex)
         if not full and _norm_raise_exempt(case, spos):
             box_exempt = True
@@ -784,17 +882,19 @@ def _corr_norm(ctx, cases):
             continue
         ibox = list(new.box.vects.ravel()) + list(new.box.origin)
         sc = max(abs(float(b)) for b in mbox)
-        if not all(abs(float(a) - float(b)) <= TOL * sc for a, b in zip(ibox, mbox)):
+        if not all(abs(float(a) - float(b)) <= tolf * sc for a, b in zip(ibox, mbox)):
             ctx.disagree('norm:box', f'normalize: new box {[float(x) for x in ibox]}, model {[float(x) for x in mbox]}',
                          replay)
             continue
-        if not all(abs(float(a) - float(b)) <= 1e-8 for a, b in zip(T.ravel(), mT)):
+        k2c = _kappa2(_fm(case['vects']))
+        if not all(abs(float(a) - float(b)) <= max(1e-8, CN * U * k2c * k2c) for a, b in zip(T.ravel(), mT)):
             ctx.disagree('norm:transform', f'normalize: transform {T.tolist()}, model {[float(x) for x in mT]}', replay)
             continue
         newinv = _inv([mbox[0:3], mbox[3:6], mbox[6:9]])
         ncase = dict(case, vects=[[float(x) for x in mbox[0:3]], [float(x) for x in mbox[3:6]],
                                   [float(x) for x in mbox[6:9]]], origin=[float(x) for x in mbox[9:12]])
-        if not _compare_positions(ncase, 'norm', ctx, new.atoms.view['pos'].tolist(), mpos, spos, exempt, newinv, False):
+        if not _compare_positions(ncase, 'norm', ctx, new.atoms.view['pos'].tolist(), mpos, spos, exempt, newinv, False,
+                                  tolf=tolf):
             continue
         bad = _same_snap(before, _snap(new), skip=('vects', 'origin', 'pos'))
         if bad:
@@ -856,6 +956,8 @@ def _concretize(system, op):
     import numpy as np
     if op['op'] in ('peek', 'badscale'):
         return dict(op, pbc=[bool(p) for p in system.pbc])
+    if op['op'] == 'pbcedit':
+        return dict(op)
     if op['op'] == 'move':
         # new Cartesian positions: some atoms displaced by a combination of the current cell vectors
         V, P = system.box.vects, system.atoms.view['pos'].astype(float)
@@ -921,6 +1023,15 @@ def _op_line(c):
         return 'setorigin ' + cm.frs(c['origin'])
     if k in ('setpbc', 'peek', 'badscale'):            # reads and refused calls: the model state must not change
         return 'setpbc ' + ' '.join('1' if p else '0' for p in c['pbc'])
+    if k == 'pbcedit':
+        # an in-place edit of the pbc array: item assignment in the model where that is what happened; whatever the
+        # object reads afterwards is what the next operation must follow (the model is told exactly that)
+        want = list(c.get('pbc_before', c['pbc_after']))
+        if c.get('how') != 'all':
+            want[c['axis']] = bool(c['value'])
+        if want == c['pbc_after'] and c.get('how') != 'all':
+            return f"editpbc {c['axis']} {int(bool(c['value']))}"
+        return 'setpbc ' + ' '.join('1' if p else '0' for p in c['pbc_after'])
     if k == 'move':
         return 'setpos ' + cm.frs([x for p in c['P'] for x in p])
     return k
@@ -983,10 +1094,68 @@ def _peek(system, names, scribble=True):
                 v = getattr(system, nm)
         except AssertionError:          # lx, xy, xlo, zhi of a cell that is not LAMMPS-normal: documented refusal
             v = None
+        out.append((nm, v.copy() if isinstance(v, np.ndarray) else v))
         if scribble:
             _scribble(v)
-        out.append(nm)
     return out
+
+
+def _angle_deg(u, v):
+    """angle between two exact vectors, in degrees, well conditioned at every angle (atan2 of |u x v| and u.v)."""
+    cx = [u[1] * v[2] - u[2] * v[1], u[2] * v[0] - u[0] * v[2], u[0] * v[1] - u[1] * v[0]]
+    n2 = sum(x * x for x in cx)
+    d = sum(a * b for a, b in zip(u, v))
+    sc = sum(a * a for a in u) * sum(b * b for b in v)
+    # (scaled by |u|^2 |v|^2 so that nothing leaves the double range at 2^+-320)
+    return math.degrees(math.atan2(math.sqrt(float(n2 / sc)), float(d * d / sc) ** 0.5 * (1 if d >= 0 else -1)))
+
+
+def _sqrt_fr(x):
+    """square root of a Fraction as a float, at any magnitude."""
+    if x == 0:
+        return 0.0
+    e = (x.numerator.bit_length() - x.denominator.bit_length()) // 2
+    return math.ldexp(math.sqrt(float(x / F(4) ** e)), e)
+
+
+def _getters_bad(values, state):
+    """what the Box getters report against the exact cell `state` (the lengths a, b, c, the lattice angles and the
+    volume are the quantities normalize rebuilds the cell from).  Returns a description of the first wrong value."""
+    import numpy as np
+    V = _fm(state['vects'])
+    o = _fv(state['origin'])
+    rows = {'avect': 0, 'bvect': 1, 'cvect': 2}
+    pairs = {'alpha': (1, 2), 'beta': (0, 2), 'gamma': (0, 1)}
+    for nm, v in values:
+        if v is None:
+            continue
+        if nm == 'vects' and np.asarray(v).tolist() != state['vects']:
+            return f'box.vects reads {np.asarray(v).tolist()}, the cell is {state["vects"]}'
+        if nm == 'origin' and np.asarray(v).tolist() != state['origin']:
+            return f'box.origin reads {np.asarray(v).tolist()}, the origin is {state["origin"]}'
+        if nm in rows and np.asarray(v).tolist() != state['vects'][rows[nm]]:
+            return f'box.{nm} reads {np.asarray(v).tolist()}, the vector is {state["vects"][rows[nm]]}'
+        if nm in ('a', 'b', 'c'):
+            want = _sqrt_fr(sum(x * x for x in V['abc'.index(nm)]))
+            if not abs(float(v) - want) <= 8 * U * want:
+                return f'box.{nm} reads {float(v)!r}, the length of that cell vector is {want!r}'
+        if nm in pairs:
+            i, j = pairs[nm]
+            want = _angle_deg(V[i], V[j])
+            # the code forms the cosine (absolute error a few u) and takes arccos: error a few u / sin(angle)
+            sn = max(math.sin(math.radians(want)), 1e-300)
+            tol = math.degrees(16 * U / sn) + 8 * U * 180.0
+            if not abs(float(v) - want) <= tol:
+                return (f'box.{nm} reads {float(v)!r} degrees, the angle between those cell vectors is {want!r} '
+                        f'(off by {abs(float(v) - want):.3g}, rounding bound {tol:.3g})')
+        if nm == 'volume':
+            det = abs(_det(V))
+            scale = _sqrt_fr(sum(x * x for x in V[0])) * _sqrt_fr(sum(x * x for x in V[1])) * _sqrt_fr(sum(x * x for x in V[2]))
+            if not (abs(float(v) - float(det)) <= 32 * U * scale if math.isfinite(scale) and scale > 0 else True):
+                return f'box.volume reads {float(v)!r}, the volume of the cell is {float(det)!r}'
+        if nm in ('lx', 'xy') and float(v) != state['vects'][{'lx': 0, 'xy': 1}[nm]][0]:
+            return f'box.{nm} reads {float(v)!r}, the cell is {state["vects"]}'
+    return None
 
 
 def _apply(system, c):
@@ -1027,7 +1196,30 @@ def _apply(system, c):
             system.box.origin = H.arr(c['origin'])
             return None
         if k == 'setpbc':
-            system.pbc = tuple(c['pbc'])
+            form = c.get('form', 'tuple')
+            arg = _pbc_arg(c['pbc'], form)
+            system.pbc = arg
+            _HANDED_PBC[id(system)] = arg if form == 'npbool' else None
+            return None
+        if k == 'pbcedit':
+            # the periodicity setting edited IN PLACE: through the array the getter hands out, or through the caller's
+            # own array that was handed to the constructor / the setter
+            c['pbc_before'] = [bool(p) for p in system.pbc]
+            ax, val, how = c.get('axis', 0), bool(c.get('value')), c.get('how', 'item')
+            arr = _HANDED_PBC.get(id(system)) if how == 'handed' else None
+            if arr is not None:
+                arr[ax] = val
+            elif how == 'itemnp':
+                system.pbc[ax] = np.bool_(val)
+            elif how == 'slice':
+                system.pbc[ax:ax + 1] = [val]
+            elif how == 'negindex':
+                system.pbc[ax - 3] = val
+            elif how == 'all':
+                system.pbc[...] = np.array(c['pbc'], dtype=bool)
+            else:
+                system.pbc[ax] = val
+            c['pbc_after'] = [bool(p) for p in system.pbc]
             return None
         if k == 'move':
             how = c.get('how', 'attr')
@@ -1160,7 +1352,7 @@ def _run_hist(hist):
 def _keeps_exact(c, before, after_vects):
     """does this operation keep a grid state on the grid (every float operation of later steps exact)?"""
     k = c['op']
-    if k in ('spos', 'norm', 'setpbc', 'peek', 'badscale'):
+    if k in ('spos', 'norm', 'setpbc', 'peek', 'badscale', 'pbcedit'):
         return True
     if k in ('setorigin', 'move'):
         return bool(c.get('gridkeep'))
@@ -1271,6 +1463,8 @@ def _check_step(ctx, h, k, rec, sec):
         return False
     if name == 'setpbc':
         s0 = dict(s0, pbc=tuple(c['pbc']))
+    if name == 'pbcedit' and 'pbc_after' in c:
+        s0 = dict(s0, pbc=tuple(c['pbc_after']))
     bad = _same_snap(s0, s1, skip=skip)
     if bad and 'err' not in rec:
         if name == 'norm':
@@ -1295,6 +1489,8 @@ def _check_step(ctx, h, k, rec, sec):
         ctx.disagree('hist:singular', f'{label}: the object holds the singular cell {b["vects"]}', replay)
         return False
     kap = _kappa(Vf)
+    if name in ('rebuild', 'norm'):
+        kap = max(kap, _kabc(Vf))        # the rebuild from lengths and angles has its own conditioning
     nV = _normV(b['vects'])
     omax = max(abs(x) for x in b['origin'])
     n = len(b['pos'])
@@ -1394,6 +1590,11 @@ def _check_step(ctx, h, k, rec, sec):
             if a['pos'] != c['P']:
                 return dis('positions', f'positions after the assignment are {a["pos"]}, assigned {c["P"]}')
             return True
+        if name == 'peek' and isinstance(rec.get('obs'), list):
+            badg = _getters_bad(rec['obs'], b)
+            if badg:
+                ctx.violate('box:getter-value', f'{label}: {badg}', replay)
+                return False
         scaled = name == 'rebuild' or (name == 'boxset' and c['scale'])
         if not scaled:
             if a['pos'] != b['pos']:
@@ -1630,10 +1831,15 @@ def _gen_hist(rng, regime):
             ops.append({'op': 'setorigin', 'gridkeep': regime == 'grid',
                         'origin': [cm.dyadic(rng, -8, 8, 2) for _ in range(3)] if regime == 'grid'
                         else [rng.uniform(-10, 10) for _ in range(3)]})
-        else:
+        elif rng.random() < 0.5:
             # an axis is only freed when no atom is far out along it: lengthening a cell vector by more than 1e9
             # makes the clean-up of the Box.vects setter zero the other vectors (singular cell, see docs/C05.md)
-            ops.append({'op': 'setpbc', 'pbc': [bool(p or not free[k]) for k, p in enumerate(rng.choice(PBCS))]})
+            ops.append({'op': 'setpbc', 'pbc': [bool(p or not free[k]) for k, p in enumerate(rng.choice(PBCS))],
+                        'form': rng.choice(PBCFORMS)})
+        else:
+            ax = rng.randint(0, 2)
+            ops.append({'op': 'pbcedit', 'axis': ax, 'value': bool(rng.random() < 0.5 or not free[ax]),
+                        'how': rng.choice(PBCEDITS)})
     if not any(o['op'] in ('boxset', 'setvects') for o in ops):
         ops.insert(rng.randint(1 if first else 0, len(ops)), _box_op(rng, regime, kind, far))
     # closing: look at the object again
@@ -1641,6 +1847,71 @@ def _gen_hist(rng, regime):
     if rng.random() < 0.5:
         ops.append(named(rng.choice(['wrap', 'norm'])))
     return {'case': case, 'ops': ops}
+
+
+PBCFORMS = ('tuple', 'list', 'int', 'npbool', 'npbool', 'npint')
+PBCEDITS = ('item', 'item', 'itemnp', 'slice', 'negindex', 'handed', 'handed')
+
+
+def _gen_pbc_hist(rng, regime, cell=None):
+    """hidden state around the periodicity setting: a system created (or last assigned) with one setting, the setting
+    then edited IN PLACE - item assignment on the array `system.pbc` hands out, or an edit of the caller's own array that
+    was handed to the constructor / the setter - with atoms outside along the edited direction, and a wrap / normalize
+    after every edit.  Whatever `system.pbc` reads at the time of the call is what the call must follow."""
+    start = (True, True, True) if rng.random() < 0.6 else rng.choice(PBCS)
+    n = rng.randint(1, 5)
+    if regime == 'grid':
+        case = _grid_case(rng, start, n=n)
+        # (the default grid generator puts 15 % of the coordinates 2^3..2^10 cells out: fine for a freed direction)
+    else:
+        case = _float_case(rng, start, n=n, far=False, cell=cell)
+    case['pbcform'] = rng.choice(PBCFORMS)
+    cur = list(start)
+    ops = []
+    r = rng.random()
+    if r < 0.25:
+        ops.append({'op': 'wrap', 'ret': rng.choice(RETS_W)})
+    elif r < 0.4:
+        ops.append({'op': 'peek', 'what': rng.sample(GETTERS, rng.randint(1, 4))})
+    elif r < 0.5:
+        ops.append({'op': 'spos'})
+    if rng.random() < 0.3:
+        cur = list((True, True, True) if rng.random() < 0.6 else rng.choice(PBCS))
+        ops.append({'op': 'setpbc', 'pbc': list(cur), 'form': rng.choice(PBCFORMS)})
+
+    def shifts():
+        if regime == 'grid':
+            return [[rng.choice([0, 1, -1, 2, -3, 0.125, -0.5, 2.75, -1.25]) for _ in range(3)] for _ in range(rng.randint(1, 3))]
+        return [[rng.choice([0.0, rng.uniform(-3, 3), float(rng.randint(-3, 3)), rng.uniform(-0.4, 0.4)]) for _ in range(3)]
+                for _ in range(rng.randint(1, 3))]
+
+    for it in range(rng.randint(1, 3)):
+        if it > 0 or (ops and ops[0]['op'] == 'wrap'):
+            # the earlier wrap put every atom inside: move some out again (by whole and fractional cell vectors)
+            ops.append({'op': 'move', 'shift': shifts(), 'gridkeep': regime == 'grid',
+                        'how': rng.choice(['attr', 'prop', 'aprop', 'view', 'inplace', 'index'])})
+        if rng.random() < 0.12:
+            new = list(rng.choice(PBCS))
+            ops.append({'op': 'pbcedit', 'how': 'all', 'pbc': new, 'axis': 0, 'value': new[0]})
+            cur = new
+        else:
+            for _ in range(rng.choice([1, 1, 1, 2])):
+                ax = rng.randint(0, 2)
+                val = (not cur[ax]) if rng.random() < 0.85 else cur[ax]
+                ops.append({'op': 'pbcedit', 'axis': ax, 'value': val, 'how': rng.choice(PBCEDITS)})
+                cur[ax] = val
+        t = rng.random()
+        if t < 0.7 or not all(cur):
+            ops.append({'op': 'wrap', 'ret': rng.choice(RETS_W)})
+        else:
+            ops.append({'op': 'norm', 'ret': rng.choice(RETS_N)})
+        if rng.random() < 0.3:
+            ops.append({'op': 'wrap'})
+    return {'case': case, 'ops': ops}
+
+
+def _extreme_case(rng, pbc, **kw):
+    return _float_case(rng, pbc, cell=(_extreme_cell(rng), 'extreme'), **kw)
 
 
 def correspond(ctx):
@@ -1664,6 +1935,9 @@ def correspond(ctx):
                 extra.append(_form_case(rng, rng.choice(PBCS), form))
         extra.append(_singular_case(rng, rng.choice(PBCS)))
         extra.append(_hairline_case(rng, rng.choice(PBCS)))
+    # one lattice angle a fraction of a degree from 0 / 180 (alpha, beta, gamma in turn)
+    for it in range(ctx.n(12, 120)):
+        extra.append(_float_case(rng, rng.choice(PBCS), cell=(_extreme_cell(rng, it % 3, it % 2 == 0), 'extreme')))
     wrap_cases += extra
     _corr_wrap(ctx, wrap_cases)
     norm_cases = []
@@ -1686,10 +1960,14 @@ def correspond(ctx):
             if form != 'f32':
                 extra_n.append(_form_case(rng, (True, True, True), form))
         extra_n.append(_singular_case(rng, (True, True, True)))
+    for it in range(ctx.n(24, 300)):
+        extra_n.append(_float_case(rng, (True, True, True), cell=(_extreme_cell(rng, it % 3, it % 2 == 0), 'extreme')))
     norm_cases += extra_n
     _corr_norm(ctx, norm_cases)
     # histories on one object: the hidden state (cached reciprocal vectors) must never show
     hists = [_gen_hist(rng, 'grid' if it % 3 == 0 else 'float') for it in range(ctx.n(150, 2500))]
+    # the periodicity setting edited in place between wraps
+    hists += [_gen_pbc_hist(rng, 'grid' if it % 2 == 0 else 'float') for it in range(ctx.n(60, 800))]
     # the single calls above once more as one- and two-step histories: compared with the object-level model (which
     # includes the clean-up of the setter) at the derived rounding bound instead of the 1e-9 of the single-call path
     hists += [{'case': dict(c), 'ops': [{'op': 'wrap', 'ret': RETS_W[i % 4]}, {'op': 'wrap'}]}
@@ -2049,7 +2327,7 @@ def _norm_clauses_sys(system, fail, ret='kw', seps=0.0):
     # right-handed LAMMPS-compatible cell
     if not new.box.is_lammps_norm() or not (N[0][1] == 0 and N[0][2] == 0 and N[1][2] == 0 and _det(N) > 0):
         return fail('normalize:not-lammps-normal', f'new cell {new.box.vects.tolist()} is not a right-handed LAMMPS cell')
-    kap = max(_kappa(V), _kappa(N))
+    kap = max(_kappa(V), _kappa(N), _kabc(V))
     ub = CN * U * kap * kap            # sqrt/arccos/cos/division of the cell parameters: conditioning enters twice
     k2 = max(_kappa2(V), _kappa2(N))
     ubT = CN * U * k2 * k2             # the transformation comes from a least-squares solve (normwise conditioning)
@@ -2065,6 +2343,18 @@ def _norm_clauses_sys(system, fail, ret='kw', seps=0.0):
                             '(lengths/angles not preserved)')
     if _over('normalize:volume', abs(_det(N) - abs(_det(V))), ub * abs(float(_det(V)))):
         return fail('normalize:volume', f'volume {float(abs(_det(V)))!r} became {float(_det(N))!r}')
+    # the same in the code's own terms: what Box.a/b/c/alpha/beta/gamma/volume report for the old and for the new cell
+    # is what those cells have (with the Gram matrix kept, lengths and angles as the code reads them are kept)
+    for bx, st in ((system.box, {'vects': before['vects'].tolist(), 'origin': before['origin'].tolist()}),
+                   (new.box, {'vects': new.box.vects.tolist(), 'origin': new.box.origin.tolist()})):
+        try:
+            vals = [(nm, getattr(bx, nm)) for nm in ('a', 'b', 'c', 'alpha', 'beta', 'gamma', 'volume')]
+        except Exception as e:  # noqa
+            return fail('box:getter-value', f'reading the lattice parameters of the cell {st["vects"]} raised '
+                        f'{type(e).__name__}: {e}')
+        badg = _getters_bad(vals, st)
+        if badg:
+            return fail('box:getter-value', badg)
     # returned transformation: proper rotation taking the old (reversed) vectors to the new ones
     Tf = _fm(T)
     TT = _mm(Tf, _tr(Tf))
@@ -2173,10 +2463,20 @@ def _other_clauses(system, c, exact, fail):
         return fail('aliasing:array-kept', 'the object and the caller share an array (handed in and kept, or handed out '
                     'without a copy): overwriting the caller\'s array after the call changed the state of the system (box '
                     f'{snap1["vects"].tolist()}, origin {snap1["origin"].tolist()})')
+    if name in ('setpbc', 'pbcedit'):
+        want = tuple(bool(p) for p in (c['pbc'] if name == 'setpbc' else c['pbc_after']))
+        bad = _same_snap(dict(snap0, pbc=want), snap1)
+        if bad:
+            return fail('state:pbc-assignment', f'{name} ({c.get("form") or c.get("how")}) changed {bad} of the system')
+        return None
     if name in ('peek', 'spos', 'norm', 'badscale'):
         bad = _same_snap(snap0, snap1)
         if bad:
             return fail('state:read-writes', f'{name} {c.get("what", "")} changed {bad} of the system')
+        if name == 'peek' and isinstance(obs, list):
+            badg = _getters_bad(obs, {'vects': snap0['vects'].tolist(), 'origin': snap0['origin'].tolist()})
+            if badg:
+                return fail('box:getter-value', badg)
         if name == 'badscale' and obs != 'TypeError':
             return fail('refusal:box_set-scale-type', f'box_set(scale={c["scale"]!r}) was {obs} (the documented TypeError '
                         'for a scale that is not a bool is gone)')
@@ -2313,6 +2613,18 @@ def search(ctx, broken):
         if all(pbc) and it % 4 == 0:
             ctx.stats.case('oracle:normalize:hairline', _line('norm', case))
             _norm_clauses(ctx, case)
+    # strongly tilted but valid cells: one lattice angle a fraction of a degree from 0 / 180 (each of alpha, beta, gamma,
+    # both ends); normalize must not refuse them, wrap must treat them like any other cell
+    for it in range(ctx.n(36, 400) * mult):
+        cell = (_extreme_cell(rng, it % 3, (it // 3) % 2 == 0), 'extreme')
+        case = _float_case(rng, (True, True, True), cell=cell, far=it % 4 == 0)
+        case['ret'] = RETS_N[it % 5]
+        ctx.stats.case('oracle:normalize:extreme-angle', _line('norm', case))
+        _norm_clauses(ctx, case)
+        if it % 3 == 0:
+            case = _float_case(rng, rng.choice(PBCS), cell=cell)
+            ctx.stats.case('oracle:wrap:extreme-angle', _line('wrap', case))
+            _wrap_clauses(ctx, case)
     # the same clauses over magnitudes: whole cases rescaled by exact powers of two
     for it in range(ctx.n(6, 60) * mult):
         for k in SCALES:
@@ -2354,6 +2666,18 @@ def search(ctx, broken):
         except cm.InfraError:
             raise
         except Exception as e:  # noqa  (degenerate state produced by the implementation: NaN, overflow, ...)
+            ctx.violate('history:degenerate-state', f'history {_hist_name(h)}: the object reached a state on which the '
+                        f'clauses cannot be evaluated ({type(e).__name__}: {e})', {'op': 'hist', 'hist': _pub(h)})
+    # the periodicity setting edited in place (item assignment / the caller's own array) between wraps
+    for it in range(ctx.n(80, 1000) * mult):
+        h = _gen_pbc_hist(rng, 'grid' if it % 2 == 0 else 'float',
+                          cell=(_extreme_cell(rng), 'extreme') if it % 10 == 9 else None)
+        ctx.stats.case('oracle:history:pbc-in-place', (_hist_name(h), _line('hist', h['case'])))
+        try:
+            _hist_clauses(ctx, h)
+        except cm.InfraError:
+            raise
+        except Exception as e:  # noqa
             ctx.violate('history:degenerate-state', f'history {_hist_name(h)}: the object reached a state on which the '
                         f'clauses cannot be evaluated ({type(e).__name__}: {e})', {'op': 'hist', 'hist': _pub(h)})
     ctx.extra['bound_used'] = {k: round(v, 4) for k, v in sorted(MARGIN.items())}
